@@ -77,6 +77,10 @@ func checkC12(c *Ctx) {
 	if fn := c.Fn("F10.strip", "efivarfs/testfs.(*TestFS).WriteVar"); fn != nil {
 		c.ruleStrip(fn, want)
 	}
+	// what is read back is as long as what was stored (F7, shared with C11)
+	if fn := c.FnOpt("efivarfs/fswrapper.(*FSWrapper).ParseEfivars"); fn != nil {
+		c.judgeReadShape(fn)
+	}
 	// F11: fresh buffers on the read path (a cached/shared buffer is drained by the first reader)
 	c.ruleFreshRead()
 	// a register per variable: each definition maps to its own file, opened in append mode only for append writes
